@@ -317,6 +317,21 @@ def mixed_periodicity(ck: Check, n: int):
                 ck.fail(f"droplet_detection: field translated by {shift} cells along the periodic axis: length {v} instead of {base}",
                         {**sig, "check": "translate"}, {**case, "shift": list(shift), "data": data.astype(int).tolist() if data.size <= 400 else None})
                 break
+        # the structure-factor methods on the same grid (the modulus of the transform does not see a translation along a periodic axis,
+        # whatever the other axes are): a smooth random field, rolled along every periodic axis
+        nrng = np.random.default_rng(rng.randrange(2**31))
+        noise = nrng.uniform(0, 1, size=shape)
+        paxes = [a for a in range(dim) if per[a]]
+        for method in ("structure_factor_mean", "structure_factor_maximum"):
+            b2 = length(ScalarField(grid, noise), method)
+            for a in paxes:
+                sh = rng.randrange(1, shape[a])
+                v2 = length(ScalarField(grid, np.roll(noise, sh, axis=a)), method)
+                ck.count("mixed_periodicity_structure_factor")
+                if isinstance(b2, str) or isinstance(v2, str) or not (rel_close(v2, b2, 1e-9) or (v2 != v2 and b2 != b2)):
+                    ck.fail(f"{method}: field on a grid with periodic={per} translated by {sh} cells along periodic axis {a}: length {v2} instead of {b2}",
+                            {"method": method, "dim": dim, "check": "translate", "mixed_periodicity": True}, {**case, "shift_axis": a, "shift": sh})
+                    break
 
 
 def monitored_peak(ck, field, case, k_true):
